@@ -84,6 +84,8 @@ class Reg:
         self.by_id = {}
         self.info = {}     # cls -> dict(kind=..., id=..., spec=...)
         self.lets = []     # Gallina let-bindings (name, term) in dependency order
+        self.built = {}    # id(spec node) -> annotation object built for it
+        self.alias_reordered = False
 
     def let(self, name, term):
         self.lets.append((name, term))
@@ -170,7 +172,41 @@ def enum_value(v):
     return int(v['x']) if v['v'] == 'int' else v['x']
 
 
+def fresh_typing_caches():
+    """typing caches generic aliases by argument EQUALITY (List[Union[None, X]] written after List[Optional[X]] is the SAME object,
+    with the first spelling's argument order).  Every case starts from empty caches so that annotations mean what the case wrote."""
+    for f in getattr(typing, '_cleanups', []):
+        try:
+            f()
+        except Exception:
+            pass
+
+
+def _check_alias(alias, built_args, reg):
+    """flag the case when typing handed out a cached alias whose Union arguments are ordered differently from what was written"""
+    try:
+        got = typing.get_args(alias)
+        for g, b in zip(got, built_args):
+            if typing.get_origin(b) is typing.Union or isinstance(b, __import__('types').UnionType):
+                if typing.get_args(g) != typing.get_args(b):
+                    reg.alias_reordered = True
+    except Exception:
+        pass
+    return alias
+
+
 def build_type(spec, reg, meta=None):
+    a = build_type0(spec, reg, meta)
+    if isinstance(spec, dict) and spec.get('t') in ('seq', 'tuple', 'vartuple', 'dict', 'opt', 'union'):
+        subs = [spec[k] for k in ('e', 'kt', 'vt') if k in spec] + list(spec.get('es', []))
+        built = [reg.built.get(id(x)) for x in subs]
+        if all(b is not None for b in built):
+            _check_alias(a, built if spec['t'] != 'union' else [], reg)
+    reg.built[id(spec)] = a if a is not None else type(None)
+    return a
+
+
+def build_type0(spec, reg, meta=None):
     """Real annotation object for a type spec; creates Enum / NamedTuple / TypedDict /
     dataclass classes on first sight (cached by id in reg)."""
     t = spec['t']
@@ -200,19 +236,20 @@ def build_type(spec, reg, meta=None):
                                                           {'plain': 'EPlain', 'int': 'EIntMix', 'str': 'EStrMix'}[spec['mix']]))
         return reg.by_id[key]
     builtin = spec.get('spell') == 'builtin'
+    nn = lambda a: type(None) if a is None else a      # builtin generics keep a literal None argument; typing turns it into NoneType
     if t == 'seq':
         e = build_type(spec['e'], reg)
         if builtin:
-            return {'list': list, 'set': set, 'frozenset': frozenset, 'deque': collections.deque}[spec['k']][e]
+            return {'list': list, 'set': set, 'frozenset': frozenset, 'deque': collections.deque}[spec['k']][nn(e)]
         return {'list': T.List, 'set': T.Set, 'frozenset': T.FrozenSet, 'deque': T.Deque}[spec['k']][e]
     if t == 'tuple':
-        return (tuple if builtin else T.Tuple)[tuple(build_type(e, reg) for e in spec['es'])]
+        return (tuple if builtin else T.Tuple)[tuple(nn(build_type(e, reg)) for e in spec['es'])]
     if t == 'vartuple':
-        return (tuple if builtin else T.Tuple)[build_type(spec['e'], reg), ...]
+        return (tuple if builtin else T.Tuple)[nn(build_type(spec['e'], reg)), ...]
     if t == 'dict':
         kt, vt = build_type(spec['kt'], reg), build_type(spec['vt'], reg)
         if builtin:
-            return {'dict': dict, 'defaultdict': collections.defaultdict, 'ordered': collections.OrderedDict}[spec['k']][kt, vt]
+            return {'dict': dict, 'defaultdict': collections.defaultdict, 'ordered': collections.OrderedDict}[spec['k']][nn(kt), nn(vt)]
         return {'dict': T.Dict, 'defaultdict': T.DefaultDict, 'ordered': T.OrderedDict}[spec['k']][kt, vt]
     if t == 'opt':
         e = build_type(spec['e'], reg)
@@ -319,6 +356,25 @@ def build_type(spec, reg, meta=None):
                 copt(cstr(eff_tag(spec)) if eff_tag(spec) is not None else None)))
         return reg.by_id[key]
     raise ValueError('type spec %r' % (spec,))
+
+
+def has_f56(ann, seen=None):
+    """finding F56: a defaultdict annotation whose VALUE type is a PEP 604 union object (types.UnionType) - typing's alias cache can
+    hand it out even for a value type written typing.Union[...] when an equal `X | Y` alias was created earlier in the process"""
+    import types
+    seen = set() if seen is None else seen
+    if id(ann) in seen:
+        return False
+    seen.add(id(ann))
+    origin = typing.get_origin(ann)
+    args = typing.get_args(ann)
+    if origin is collections.defaultdict and len(args) == 2 and isinstance(args[1], types.UnionType):
+        return True
+    if dataclasses.is_dataclass(ann):
+        return any(has_f56(f.type, seen) for f in dataclasses.fields(ann))
+    if isinstance(ann, type) and hasattr(ann, '__annotations__') and (hasattr(ann, '_fields') or typing.is_typeddict(ann)):
+        return any(has_f56(a, seen) for a in ann.__annotations__.values())
+    return any(has_f56(a, seen) for a in args if a is not Ellipsis)
 
 
 def bind_meta(cls, meta):
